@@ -23,9 +23,12 @@ def splitOnBar (toks : List String) : List String × List String :=
 partial def parseOps : List String → Option (List FrameReg.Op)
   | [] => some []
   | "reg" :: name :: tag :: id :: rest => do
-    let n ← id.toNat?
+    -- `<id>` or `<id>@<number of orientation links from the parent to EME2000>`
+    let parts := id.splitOn "@"
+    let n ← (parts.getD 0 "").toNat?
+    let pd ← if parts.length = 2 then (parts.getD 1 "").toNat? else some 0
     let ops ← parseOps rest
-    pure (FrameReg.Op.reg name ⟨tag, n⟩ :: ops)
+    pure (FrameReg.Op.reg name ⟨tag, n, pd⟩ :: ops)
   | "conv" :: name :: rest => do
     let ops ← parseOps rest
     pure (FrameReg.Op.conv name :: ops)
@@ -84,8 +87,10 @@ partial def parseRefs : List String → Option (List FrameReg.RefObj × List Str
 `c17.thrust <method> start stop t0 h1 h2 …`   → `D ·` thrust time (µs) and `D`
 `c17.accel x0..x5 nb (mu px py pz)… nm (on tag ax ay az)…` → 3 floats `_accel(orb)[3:]` (or `unbound`)
 `c17.name <imp|cont|o2f|local|kepcont> <name>` → `qsw | tnw | identity | value-error`
+`c17.kcont x0..x5 mu a i v da di dO duration`  → 3 floats, `KeplerianContinuousMan.accel`
 `c17.kepplane c0..c5`                         → inclination, node-direction arguments (Y, X) of `_cartesian_to_keplerian`
-`c17.session reg <name> <tag> <id> conv <name> …` → for each conv `tag:id` (or `unknown`), the binding it must use
+`c17.session reg <name> <tag> <id>[@<pdist>] conv <name> …` → for each conv `tag:id/tagInto:idInto` (or `unknown`): the latest
+                                                registration and the one whose axes a conversion *into* the frame uses
 `c17.local <QSW|TNW> x0..x5`                 → 9 floats, `to_local(tag, x, expanded=False)` row-major; other tags: `value-error`
 `c17.proj <QSW|TNW|-> x0..x5 d0 d1 d2`       → 3 floats, `ImpulsiveMan.dv` / `ContinuousMan.accel`
 `c17.accdv <QSW|TNW|-> x0..x5 d0 d1 d2 dur`  → 3 floats, `ContinuousMan(dv=…).accel`
@@ -147,15 +152,22 @@ def handle : List String → Option String
       | "kepcont", _ => FrameName.keplerianContinuousSel.toString
       | _, _ => "bad-op"
     | none => "bad-op"
+  | "c17.kcont" :: rest => some <|
+    match takeFloats 14 rest with
+    | some ([a, b, c, d, e, f, mu, sma, i, v, da, di, dO, dur], _) => fsToStr (kepContAccel (v3 a b c) (v3 d e f) mu sma i v da di dO dur).toList
+    | _ => "bad-op"
   | "c17.kepplane" :: rest => some <|
     match takeFloats 6 rest with
     | some ([a, b, c, d, e, f], _) => fsToStr [kepInc a b c d e f, kepNodeY a b c d e f, kepNodeX a b c d e f]
     | _ => "bad-op"
   | "c17.session" :: rest => some <|
     match parseOps rest with
-    | some ops => joinWith " " ((FrameReg.run [] ops).map (fun
+    | some ops =>
+      -- per conversion: the latest registration (origin, conversions out of the frame) `/` the one whose axes a conversion into it uses
+      let show1 : Option FrameReg.Entry → String := fun
         | some e => e.tag ++ ":" ++ toString e.orbit
-        | none => "unknown"))
+        | none => "unknown"
+      joinWith " " (((FrameReg.run [] ops).zip (FrameReg.runInto [] ops)).map (fun p => show1 p.1 ++ "/" ++ show1 p.2))
     | none => "bad-op"
   | "c17.local" :: tag :: rest => some <|
     match tagOf tag, takeFloats 6 rest with
